@@ -27,7 +27,7 @@ var lexFragments = []string{
 	"$a$b$", "x'4142'", "X'4'", "b'0101'", "B'1'", "{p:UInt8}", "{", "}", "--c\n", "-- c;", "#c\n", "/* c */", "/* /* n */ */", "/*", "−c\n",
 	"‘s’", "“id”", "@@var", "@", "@@", "->", "<=>", "<>", "!=", "||", "::", "<=", ">=", "==", "=", "!", "|", ":", "?", "^",
 	"(", ")", "[", "]", ",", ".", ";", "+", "-", "*", "/", "%", " ", "\n", "\t", "\r\n", "\x00", "\u00a0", "\ufeff", "\u200b", "é", "ſelect", "\xff", "\xc3", "\xe2\x80",
-	"١٢", "0é", "1e", "1e+", "0x", "0b", "0b2", "0o8", "1__2", "1_", "_1", "$1", "a$b", "e", "E5", "1E5", ".e1", ".1e", ".1_a", ".1_é", ".1a", ".1e5", "1.a", "1.e5",
+	"'a\\éb'", "'\\п'", "`\\é`", "'\\😀'", "\"\\é\"", "'\\\xff'", "'\\x4é'", "١٢", "0é", "1e", "1e+", "0x", "0b", "0b2", "0o8", "1__2", "1_", "_1", "$1", "a$b", "e", "E5", "1E5", ".e1", ".1e", ".1_a", ".1_é", ".1a", ".1e5", "1.a", "1.e5",
 }
 
 func genLexCmd(in *bufio.Scanner, out *bufio.Writer, args []string) error {
